@@ -63,6 +63,7 @@ struct Case {
   int path;
   bool probe = false;
   bool default_fields = false; // probe only: do not switch the Temperature field on
+  int writes = 1;              // 2: the same writer object writes snapshot 0 and then snapshot 1; snapshot 1 is checked
 };
 
 struct CellVal {
@@ -114,12 +115,14 @@ public:
 };
 
 static std::string case_json(const Case &c) {
-  return fmt("{\"n\": \"%d,%d,%d\", \"s\": \"%d,%d,%d\", \"box\": %d, \"field\": %d, \"path\": %d, \"probe\": %d}", c.n[0],
-             c.n[1], c.n[2], c.s[0], c.s[1], c.s[2], c.box, c.field, c.path, c.probe ? 1 : 0);
+  return fmt("{\"n\": \"%d,%d,%d\", \"s\": \"%d,%d,%d\", \"box\": %d, \"field\": %d, \"path\": %d, \"probe\": %d, "
+             "\"writes\": %d}",
+             c.n[0], c.n[1], c.n[2], c.s[0], c.s[1], c.s[2], c.box, c.field, c.path, c.probe ? 1 : 0, c.writes);
 }
 static std::string case_str(const Case &c) {
-  return fmt("%s grid %dx%dx%d, subgrids %dx%dx%d, box %s, field %s", PATH_NAME[c.path], c.n[0], c.n[1], c.n[2], c.s[0],
-             c.s[1], c.s[2], c.probe ? PROBE_BOX.name : BOXES[c.box].name, FIELD_NAME[c.field]);
+  return fmt("%s grid %dx%dx%d, subgrids %dx%dx%d, box %s, field %s%s", PATH_NAME[c.path], c.n[0], c.n[1], c.n[2], c.s[0],
+             c.s[1], c.s[2], c.probe ? PROBE_BOX.name : BOXES[c.box].name, FIELD_NAME[c.field],
+             c.writes > 1 ? ", second snapshot of the same writer" : "");
 }
 
 static std::string g_tmp;
@@ -127,7 +130,9 @@ static bool g_verbose = false;
 
 struct Stats {
   uint64_t cases = 0, cells_compared = 0, raw_rows = 0, reader_cells = 0, buffered_cells = 0, buffered_runs = 0,
-           buffered_skipped_noncubic = 0, near = 0;
+           buffered_skipped_noncubic = 0, near = 0, second_write_cases = 0, cases_crossing_chunk = 0,
+           cases_subgrid_over_block = 0, cases_grid_over_block = 0, max_subgrid_cells = 0, max_blocks_per_subgrid = 0,
+           max_grid_cells = 0, subgrids_times_blocks_ge3 = 0;
   double max_rel = 0.;
 };
 
@@ -174,16 +179,20 @@ static void compare_reader(const Case &c, const char *reader, READER &&get, cons
     S.max_rel = std::max(S.max_rel, en);
     if (tol_n > 0. && en > 0.1 * tol_n)
       ++S.near;
+    const bool bad_n = !(en <= tol_n), bad_T = !(d.get_temperature() == vals[i].T),
+               bad_x = !(d.get_ionic_fraction(ION_H_n) == vals[i].xH);
+    if (!(bad_n || bad_T || bad_x || (g_verbose && io < 8)))
+      continue;
     const std::string where = fmt("cell %zu at (%.17g, %.17g, %.17g) of %s", i, mids[i].x(), mids[i].y(), mids[i].z(),
                                   case_str(c).c_str());
-    if (!(en <= tol_n))
+    if (bad_n)
       R.violation(fmt("C20:snap:%s:%s:density:%s", reader, PATH_NAME[c.path], FIELD_NAME[c.field]),
                   fmt("number density %.17g, the cell held %.17g; ", d.get_number_density(), vals[i].n) + where,
                   case_json(c));
-    if (!(d.get_temperature() == vals[i].T))
+    if (bad_T)
       R.violation(fmt("C20:snap:%s:%s:temperature", reader, PATH_NAME[c.path]),
                   fmt("temperature %.17g, the cell held %.17g; ", d.get_temperature(), vals[i].T) + where, case_json(c));
-    if (!(d.get_ionic_fraction(ION_H_n) == vals[i].xH))
+    if (bad_x)
       R.violation(fmt("C20:snap:%s:%s:neutral-fraction", reader, PATH_NAME[c.path]),
                   fmt("neutral fraction %.17g, the cell held %.17g; ", d.get_ionic_fraction(ION_H_n), vals[i].xH) + where,
                   case_json(c));
@@ -196,6 +205,26 @@ static void compare_reader(const Case &c, const char *reader, READER &&get, cons
 /// one case; returns a short outcome string for probes
 static std::string run_case(const Case &c, Result &R, Stats &S) {
   ++S.cases;
+  {
+    // the constants of the code under test: the writers fill the datasets in blocks of 10000 cells (per subgrid on the
+    // task based paths, per grid on the legacy path); HDF5Tools chunks datasets at 1 << 10 rows
+    const uint64_t ncell = (uint64_t)c.n[0] * c.n[1] * c.n[2];
+    const uint64_t nsubc = c.path == P_CARTESIAN ? ncell : ncell / ((uint64_t)c.s[0] * c.s[1] * c.s[2]);
+    const uint64_t nblock = (nsubc + 9999) / 10000;
+    S.max_grid_cells = std::max(S.max_grid_cells, ncell);
+    S.max_subgrid_cells = std::max(S.max_subgrid_cells, nsubc);
+    S.max_blocks_per_subgrid = std::max(S.max_blocks_per_subgrid, nblock);
+    if (ncell > 1024)
+      ++S.cases_crossing_chunk;
+    if (ncell > 10000)
+      ++S.cases_grid_over_block;
+    if (nsubc > 10000)
+      ++S.cases_subgrid_over_block;
+    if (nblock >= 3)
+      ++S.subgrids_times_blocks_ge3;
+    if (c.writes > 1)
+      ++S.second_write_cases;
+  }
   const BoxDef &B = c.probe ? PROBE_BOX : BOXES[c.box];
   const std::string pname = g_tmp + "/snap.param";
   {
@@ -219,8 +248,9 @@ static std::string run_case(const Case &c, Result &R, Stats &S) {
     fputs(t.c_str(), f);
     fclose(f);
   }
-  const std::string sname = g_tmp + "/snap000.hdf5";
-  unlink(sname.c_str());
+  const std::string sname = g_tmp + (c.writes > 1 ? "/snap001.hdf5" : "/snap000.hdf5");
+  unlink((g_tmp + "/snap000.hdf5").c_str());
+  unlink((g_tmp + "/snap001.hdf5").c_str());
   std::vector< CoordinateVector<> > mids;
   std::vector< CellVal > vals; // what the cells hold
   Box<> box;
@@ -250,7 +280,8 @@ static std::string run_case(const Case &c, Result &R, Stats &S) {
           record(it.get_cell_midpoint(), it.get_ionization_variables());
       stage = "write";
       GadgetDensityGridWriter writer(g_tmp, params, false, nullptr);
-      writer.write(creator, 0, params, 0.);
+      for (int w = 0; w < c.writes; ++w)
+        writer.write(creator, w, params, 0.);
     } else if (c.path == P_HYDRO) {
       DensitySubGridCreator< HydroDensitySubGrid > creator(box, params);
       stage = "initialize";
@@ -263,7 +294,8 @@ static std::string run_case(const Case &c, Result &R, Stats &S) {
       }
       stage = "write";
       GadgetDensityGridWriter writer(g_tmp, params, true, nullptr);
-      writer.write(creator, 0, params, 0.);
+      for (int w = 0; w < c.writes; ++w)
+        writer.write(creator, w, params, 0.);
     } else {
       params.get_value< std::string >("DensityGrid:type", "Cartesian");
       CartesianDensityGrid grid(sb, params, false, nullptr);
@@ -274,7 +306,8 @@ static std::string run_case(const Case &c, Result &R, Stats &S) {
         record(it.get_cell_midpoint(), it.get_ionization_variables());
       stage = "write";
       GadgetDensityGridWriter writer(g_tmp, params, false, nullptr);
-      writer.write(grid, 0, params, 0.);
+      for (int w = 0; w < c.writes; ++w)
+        writer.write(grid, w, params, 0.);
     }
     stage = "written";
   });
@@ -389,6 +422,9 @@ static std::string run_case(const Case &c, Result &R, Stats &S) {
       df.initialize();
       stage = "evaluate";
       compare_reader(c, "reader", [&](const Cell &cell) { return df(cell); }, mids, vals, fwd, tol_n, R, S, S.reader_cells);
+      // second use of the same object, other access order
+      compare_reader(c, "reader", [&](const Cell &cell) { return df(cell); }, mids, vals, strided, tol_n, R, S,
+                     S.reader_cells);
       df.free();
     });
     if (!okr) {
@@ -410,8 +446,17 @@ static std::string run_case(const Case &c, Result &R, Stats &S) {
         bsizes.push_back(2);
       if (nsub > 2)
         bsizes.push_back(nsub);
+      // more buffers than subgrids (the default of the parameter file constructor is 100)
+      if (N <= 4096)
+        bsizes.push_back(nsub + 3);
+      // a grid with many cells per subgrid: with fewer buffers than subgrids only the forward order (cells subgrid by
+      // subgrid, one load per subgrid and pass) - a strided order would reload a whole subgrid for every cell
+      const bool large = N > 4096;
       for (int bs : bsizes)
         for (int ord = 0; ord < 2; ++ord) {
+          const bool fwd_only = large && bs < nsub;
+          if (fwd_only && ord == 1)
+            continue;
           stage = "construct";
           const bool okb = c20::guarded([&] {
             const CoordinateVector< uint_fast32_t > ncell(c.n[0], c.n[1], c.n[2]);
@@ -421,6 +466,9 @@ static std::string run_case(const Case &c, Result &R, Stats &S) {
             stage = "evaluate";
             compare_reader(c, "buffered-reader", [&](const Cell &cell) { return df(cell); }, mids, vals,
                            ord ? strided : fwd, tol_n, R, S, S.buffered_cells);
+            // second pass over the same object (other order): the buffers hold subgrids of the first pass
+            compare_reader(c, "buffered-reader", [&](const Cell &cell) { return df(cell); }, mids, vals,
+                           fwd_only ? fwd : (ord ? fwd : strided), tol_n, R, S, S.buffered_cells);
             df.free();
           });
           ++S.buffered_runs;
@@ -454,10 +502,12 @@ int main(int argc, char **argv) {
   g_tmp = fast_tmpdir();
   HDF5Tools::initialize();
   H5Eset_auto2(H5E_DEFAULT, nullptr, nullptr);
-  R.rule = "a case is one tuple (cells per axis, subgrids per axis, box, density field, write path); each tuple is written "
-           "once and read by the raw HDF5 check, CMacIonizeSnapshotDensityFunction and (cubic task based cases) the "
-           "buffered reader with buffer sizes {1, 2, all} x 2 access orders; all tuples are distinct; non-trivial = the "
-           "field is not uniform or the grid has more than one subgrid";
+  R.rule = "a case is one tuple (cells per axis, subgrids per axis, box, density field, write path, first or second "
+           "snapshot of the writer object); each tuple is written once and read by the raw HDF5 check, "
+           "CMacIonizeSnapshotDensityFunction (two passes over the same object, forward and strided) and (cubic task based "
+           "cases) the buffered reader with buffer sizes {1, 2, all, all + 3} x 2 access orders, each followed by a pass in the "
+           "other order on the same object (grids over 4096 cells with fewer buffers than subgrids: forward twice); all "
+           "tuples are distinct; non-trivial = the field is not uniform or the grid has more than one subgrid";
   Stats S;
 
   if (!A.replay.empty()) {
@@ -472,6 +522,7 @@ int main(int argc, char **argv) {
     c.field = atoi(replay_field(rj, "field").c_str());
     c.path = atoi(replay_field(rj, "path").c_str());
     c.probe = atoi(replay_field(rj, "probe").c_str()) != 0;
+    c.writes = std::max(1, atoi(replay_field(rj, "writes").c_str()));
     printf("replaying %s\n", case_str(c).c_str());
     const std::string out = run_case(c, R, S);
     printf("outcome: %s\n", out.c_str());
@@ -525,6 +576,106 @@ int main(int argc, char **argv) {
       }
     }
   }
+  const size_t n_small = cases.size();
+  // ---- grids that cross the constants of the writers and of HDF5Tools: the datasets are chunked at 1 << 10 rows and
+  // filled in blocks of 10000 cells (per subgrid on the task based paths, per grid on the legacy path). Cell counts
+  // per axis all different (except where the buffered reader needs cubes); fields are never uniform in T and xH.
+  struct Big {
+    int n[3], s[3];
+    const char *why;
+  };
+  std::vector< Big > bigs = {
+      // around the chunk limit 1024 (= 8*8*16): 1023, 1024, 1025 rows, and two chunks + 2
+      {{3, 11, 31}, {1, 1, 1}, "1023 rows"},
+      {{3, 11, 31}, {3, 1, 1}, "1023 rows, 3 subgrids"},
+      {{8, 8, 16}, {1, 1, 1}, "1024 rows"},
+      {{8, 8, 16}, {2, 2, 2}, "1024 rows, 8 subgrids"},
+      {{5, 5, 41}, {1, 1, 1}, "1025 rows"},
+      {{5, 5, 41}, {1, 5, 1}, "1025 rows, 5 subgrids"},
+      {{5, 10, 41}, {1, 2, 1}, "2050 rows, 2 subgrids of 1025"},
+      // around the block size 10000 of the writers
+      {{11, 27, 33}, {1, 1, 1}, "subgrid of 9801 cells: one short block"},
+      {{20, 20, 25}, {1, 1, 1}, "subgrid of exactly 10000 cells: one full block"},
+      {{13, 14, 55}, {1, 1, 1}, "subgrid of 10010 cells: one full block + 10"},
+      {{20, 25, 40}, {1, 1, 1}, "subgrid of exactly 20000 cells: two full blocks"},
+      {{27, 28, 29}, {1, 1, 1}, "subgrid of 21924 cells: three blocks"},
+      {{40, 20, 25}, {2, 1, 1}, "two subgrids of exactly 10000 cells"},
+      {{46, 22, 26}, {2, 1, 1}, "two subgrids of 13156 cells (split along x)"},
+      {{26, 22, 46}, {1, 1, 2}, "two subgrids of 13156 cells (split along z)"},
+      {{21, 66, 24}, {1, 3, 1}, "three subgrids of 11088 cells (split along y)"},
+      {{24, 28, 20}, {2, 2, 2}, "13440 cells in 8 subgrids of 1680: grid over the block size, subgrids under"},
+      // cubes, for the buffered reader
+      {{22, 22, 22}, {1, 1, 1}, "cube, one subgrid of 10648 cells"},
+      {{44, 44, 44}, {2, 2, 2}, "cube, 8 subgrids of 10648 cells"},
+  };
+  if (A.thorough()) {
+    const Big more[] = {
+        {{25, 20, 20}, {1, 1, 1}, "exactly 10000, rotated"},
+        {{55, 13, 14}, {1, 1, 1}, "10010, rotated"},
+        {{3, 59, 113}, {1, 1, 1}, "subgrid of 20001 cells: two full blocks + 1"},
+        {{25, 30, 40}, {1, 1, 1}, "subgrid of exactly 30000 cells: three full blocks"},
+        {{29, 27, 28}, {1, 1, 1}, "21924, rotated"},
+        {{22, 46, 26}, {1, 2, 1}, "two subgrids of 13156 cells (split along y)"},
+        {{46, 44, 26}, {2, 2, 1}, "four subgrids of 13156 cells"},
+        {{46, 44, 52}, {2, 2, 2}, "eight subgrids of 13156 cells"},
+        {{63, 22, 24}, {3, 1, 1}, "three subgrids of 11088 cells (split along x)"},
+        {{48, 24, 24}, {2, 1, 1}, "two subgrids of 13824 cells"},
+        {{44, 44, 44}, {1, 1, 1}, "cube, one subgrid of 85184 cells: 9 blocks"},
+        {{44, 44, 44}, {2, 1, 1}, "cube, 2 subgrids of 42592 cells"},
+        {{44, 44, 44}, {1, 2, 1}, "cube, 2 subgrids of 42592 cells"},
+        {{44, 44, 44}, {1, 1, 2}, "cube, 2 subgrids of 42592 cells"},
+        {{44, 44, 44}, {2, 2, 1}, "cube, 4 subgrids of 21296 cells"},
+        {{44, 44, 44}, {4, 1, 1}, "cube, 4 subgrids of 21296 cells"},
+        {{44, 44, 44}, {1, 4, 2}, "cube, 8 subgrids of 10648 cells, not cubic subgrids"},
+        {{64, 64, 64}, {2, 2, 2}, "cube, 8 subgrids of 32768 cells"},
+        {{24, 24, 24}, {1, 1, 1}, "cube, one subgrid of 13824 cells"},
+    };
+    for (auto &b : more)
+      bigs.push_back(b);
+  }
+  for (auto &b : bigs) {
+    const bool cubic = b.n[0] == b.n[1] && b.n[1] == b.n[2];
+    const long ncell = (long)b.n[0] * b.n[1] * b.n[2];
+    for (int box = 0; box < NBOXES; ++box) {
+      // cubes in a cubic box (the buffered reader accepts nothing else), the others in the non-cubic box; thorough:
+      // the 10 pc box as well
+      const bool pick = cubic ? box == 1 : box == 3;
+      if (!(pick || (A.thorough() && box == 2)))
+        continue;
+      for (int field = 0; field < NFIELDS; ++field) {
+        // quick: the ramp for every grid; the other two fields for one grid each
+        if (!A.thorough() && field != F_RAMP && !(field == F_ZEROS && b.n[0] == 27) && !(field == F_UNIFORM && b.n[0] == 46))
+          continue;
+        for (int path = 0; path < NPATHS; ++path) {
+          if (path == P_CARTESIAN && (b.s[0] * b.s[1] * b.s[2] != 1 || ncell > 100000))
+            continue;
+          Case c = {{b.n[0], b.n[1], b.n[2]}, {b.s[0], b.s[1], b.s[2]}, box, field, path};
+          cases.push_back(c);
+        }
+      }
+    }
+  }
+  const size_t n_big = cases.size() - n_small;
+  // ---- history of length 2: the same writer object writes snapshot 0 and snapshot 1, the second file is checked
+  {
+    const Big twice[] = {{{4, 4, 4}, {2, 2, 2}, ""},     {{2, 3, 4}, {1, 3, 2}, ""},   {{4, 4, 4}, {1, 1, 1}, ""},
+                         {{27, 28, 29}, {1, 1, 1}, ""}, {{46, 22, 26}, {2, 1, 1}, ""}, {{22, 22, 22}, {1, 1, 1}, ""}};
+    for (auto &b : twice) {
+      const bool cubic = b.n[0] == b.n[1] && b.n[1] == b.n[2];
+      for (int field = 0; field < NFIELDS; ++field) {
+        if (!A.thorough() && field != F_RAMP)
+          continue;
+        for (int path = 0; path < NPATHS; ++path) {
+          if (path == P_CARTESIAN && b.s[0] * b.s[1] * b.s[2] != 1)
+            continue;
+          Case c = {{b.n[0], b.n[1], b.n[2]}, {b.s[0], b.s[1], b.s[2]}, cubic ? 1 : 3, field, path};
+          c.writes = 2;
+          cases.push_back(c);
+        }
+      }
+    }
+  }
+  const size_t n_twice = cases.size() - n_small - n_big;
   const size_t NC = cases.size();
   const size_t off = NC ? (size_t)((A.seed % (long)NC + (long)NC) % (long)NC) : 0;
   size_t done = 0;
@@ -579,6 +730,23 @@ int main(int argc, char **argv) {
   R.nontrivial = nontrivial;
   R.set("cases", (double)done);
   R.set("cases_planned", (double)NC);
+  R.set("cases_planned.small_grids_2..4_cells_per_axis", (double)n_small);
+  R.set("cases_planned.grids_around_chunk_limit_1024_and_block_size_10000(new)", (double)n_big);
+  R.set("cases_planned.second_snapshot_of_the_same_writer(new)", (double)n_twice);
+  R.set("large.shapes_and_layouts", (double)bigs.size());
+  R.set("large.cases_with_more_than_1024_rows", (double)S.cases_crossing_chunk);
+  R.set("large.cases_with_grid_over_10000_cells", (double)S.cases_grid_over_block);
+  R.set("large.cases_with_subgrid_over_10000_cells", (double)S.cases_subgrid_over_block);
+  R.set("large.cases_with_3_or_more_blocks_per_subgrid", (double)S.subgrids_times_blocks_ge3);
+  R.set("large.max_cells_per_subgrid", (double)S.max_subgrid_cells);
+  R.set("large.max_blocks_per_subgrid", (double)S.max_blocks_per_subgrid);
+  R.set("large.max_cells_per_grid", (double)S.max_grid_cells);
+  {
+    std::string l;
+    for (auto &b : bigs)
+      l += fmt("%dx%dx%d/%dx%dx%d (%s); ", b.n[0], b.n[1], b.n[2], b.s[0], b.s[1], b.s[2], b.why);
+    R.set_str("large.grids", l);
+  }
   R.set("raw_rows_checked", (double)S.raw_rows);
   R.set("reader_cells_checked", (double)S.reader_cells);
   R.set("buffered_reader_cells_checked", (double)S.buffered_cells);
